@@ -680,7 +680,12 @@ func fioGff(g *hx.Gen) fioGffIn {
 	f.score = fioScore(g)
 	f.strand = g.Intn(3) - 1
 	f.frame = g.Intn(4) - 1
-	switch k := g.Pick(0, 0, 1, 1, 2, 3, 5); {
+	k := g.Pick(0, 0, 1, 1, 2, 3, 5)
+	if g.Chance(0.02) {
+		// a physical line longer than bufio's 4096-byte buffer (and than two of them)
+		k = g.Pick(250, 400, 900)
+	}
+	switch {
 	case k == 0 && g.Chance(0.5):
 		f.attrsNil = true
 	case k == 0:
@@ -774,6 +779,11 @@ func c02Gen(g *hx.Gen) {
 			}
 			if ln > 3000 {
 				ln = 3000
+			}
+			if g.Chance(0.12) {
+				// inline sequence blocks that cross one or more refills of the reader's buffer
+				ln = g.Pick(4000, 4095, 4096, 4097, 5000, 8191, 8192, 8193, 12000)
+				width = g.Pick(1, 60, 61, 1000, 5000, 20000)
 			}
 			desc := ""
 			if g.Chance(0.3) {
